@@ -22,5 +22,7 @@ Explain(Explains(_)) ==
   ELSE LET cands == {T \in SUBSET OpenKF : T # {} /\ Explains(T)} IN
        IF cands = {} THEN [found |-> FALSE, ids |-> {}]
        ELSE [found |-> TRUE, ids |-> CHOOSE T \in cands : \A U \in cands : Cardinality(T) <= Cardinality(U)]
+\* optional judge mode (environment variable MODE)
+Mode == IF "MODE" \in DOMAIN IOEnv THEN IOEnv.MODE ELSE ""
 WriteVerdict(rec) == JsonSerialize(IOEnv.OUT, rec)
 ====
